@@ -294,8 +294,148 @@ class Arr04:
             if len(self.chk.violations) > 8:
                 return
 
+    def variants(self, n):
+        """coverage round: the option variants of check on a damaged array -- `-v` (status:correct for every intact file), `-a -d <disk>`
+        (audit only + disk filter: excluded files are not even read), `-S/-B` block ranges, and check with a whole parity FILE missing
+        ("only files will be checked")"""
+        a, chk, rng = self.arr, self.chk, self.rng
+        blocks = self.data_blocks()
+        npos = self.st['blockmax']
+        if not blocks or not npos:
+            return
+        for _ in range(n):
+            restore(a, self.sv)
+            self.n['trials'] += 1
+            data_dmg, par_dmg, desc = set(), set(), []
+            for pos, d, f, i in rng.sample(blocks, min(len(blocks), rng.randint(1, 3))):
+                sh = rng.choice(SHAPES)
+                damage_file_block(a, d, sub2rel(f['sub']), i, rng, sh)
+                data_dmg.add((pos, d, f['sub']))
+                desc.append('%s %s:%s[%d]@%d' % (sh, d, sub2rel(f['sub']), i, pos))
+            if rng.random() < 0.5:
+                pos, l = rng.randrange(npos), rng.randrange(a.np)
+                damage_parity_block(a, l, pos, rng, 'block')
+                par_dmg.add((pos, l))
+                desc.append('block %s@%d' % (levname(a, l), pos))
+            hs = self.st['hashsize']
+            if hs < 16:
+                continue        # collisions of reduced hashes are handled in run_trial only
+            replay = {'geom': self.geom, 'seed': self.seed, 'recipe': self.recipe, 'damage': desc, 'kind': 'variants'}
+            exp_data = set('error:%d:%s:%s' % (pos, d, sub.decode('latin1')) for pos, d, sub in data_dmg)
+            bad = []
+            # ---- check -v
+            pre = None
+            r = a.run('check', '-v')
+            tags = interesting(r.tags)
+            got_data = set(tagkey(t)[0] for t in tags if t.startswith('error:'))
+            if got_data != exp_data:
+                bad.append('check -v reports data errors %s, damaged are %s' % (sorted(got_data), sorted(exp_data)))
+            damaged_files = set((d, sub) for pos, d, sub in data_dmg)
+            exp_correct = set('status:correct:%s:%s' % (d, f['sub'].decode('latin1')) for d, dd in self.st['disks'].items() for f in dd['files']
+                              if f['size'] > 0 and (d, f['sub']) not in damaged_files)
+            got_correct = set(t.replace('\\', '') for t in r.tags if t.startswith('status:correct:'))
+            if got_correct != exp_correct:
+                bad.append('check -v lists as correct %s, intact files are %s' % (sorted(got_correct ^ exp_correct)[:4], len(exp_correct)))
+            # ---- check -a -d <disk>
+            dsel = rng.choice(a.disks)
+            if self.mb:
+                try:
+                    pre = self.mb.predict('check', ['-a', '-d', dsel])
+                except Exception as e:
+                    pre = None
+            r = a.run('check', '-a', '-d', dsel)
+            got = set(tagkey(t)[0] for t in interesting(r.tags) if t.startswith(('error:', 'parity_error:')))
+            exp = set(x for x in exp_data if x.split(':')[2] == dsel)
+            if got != exp:
+                bad.append('check -a -d %s reports %s, damaged data blocks of that disk are %s' % (dsel, sorted(got), sorted(exp)))
+            if (r.rc != 0) != bool(exp):
+                bad.append('check -a -d %s exits %d with damaged data %s' % (dsel, r.rc, sorted(exp)))
+            if pre is not None and not bad:
+                self.n['model'] += 1
+                dd = self.mb.compare(pre, r, 'check', ('-a', '-d', dsel))
+                if dd:
+                    chk.violation('drift_variants', 'MODEL-DRIFT: model of `check -a -d %s` disagrees with the real run: %s' % (dsel, dd[0]), dict(replay, diffs=dd[:6]), no_input=True)
+            # ---- check -S s -B n : only the stripes of the range
+            s0 = rng.randrange(npos)
+            cnt = rng.randint(1, max(1, npos - s0))
+            rngset = set(range(s0, min(npos, s0 + cnt)))
+            pre = None
+            if self.mb:
+                try:
+                    pre = self.mb.predict('check', ['-S', str(s0), '-B', str(cnt)])
+                except Exception as e:
+                    pre = None
+            r = a.run('check', '-S', str(s0), '-B', str(cnt))
+            got = set(tagkey(t)[0] for t in interesting(r.tags) if t.startswith('error:'))
+            exp = set(x for x in exp_data if int(x.split(':')[1]) in rngset)
+            if got != exp:
+                bad.append('check -S %d -B %d reports data errors %s, damaged blocks in the range are %s' % (s0, cnt, sorted(got), sorted(exp)))
+            gotp = set(tagkey(t)[0] for t in interesting(r.tags) if t.startswith('parity_error:'))
+            if any(int(x.split(':')[1]) not in rngset for x in gotp):
+                bad.append('check -S %d -B %d reports parity errors outside the range: %s' % (s0, cnt, sorted(gotp)))
+            if pre is not None and not bad:
+                self.n['model'] += 1
+                dd = self.mb.compare(pre, r, 'check', ('-S', str(s0), '-B', str(cnt)))
+                if dd:
+                    chk.violation('drift_variants', 'MODEL-DRIFT: model of `check -S %d -B %d` disagrees with the real run: %s' % (s0, cnt, dd[0]), dict(replay, diffs=dd[:6]), no_input=True)
+            # ---- a whole parity file missing: the data errors are still located (the parity of that level cannot be)
+            l = rng.randrange(a.np)
+            for pf in a.parity_files[l]:
+                if os.path.exists(pf):
+                    os.unlink(pf)
+            pre = None
+            if self.mb:
+                try:
+                    mb2 = c01_model.ModelSide(a, self.st, self.mb.model)
+                    pre = mb2.predict('check', [])
+                except Exception as e:
+                    pre = None
+            r = a.run('check')
+            got = set(tagkey(t)[0] for t in interesting(r.tags) if t.startswith('error:'))
+            if got != exp_data:
+                bad.append('check without the %s file reports data errors %s, damaged are %s' % (levname(a, l), sorted(got), sorted(exp_data)))
+            if exp_data and r.rc == 0:
+                bad.append('check without the %s file exits 0 with damaged data %s' % (levname(a, l), sorted(exp_data)))
+            if any(t.startswith('parity_error:') and tagkey(t)[0].endswith(':' + LEVNAME[l]) for t in interesting(r.tags)):
+                bad.append('check without the %s file reports parity errors of that level' % levname(a, l))
+            if pre is not None and not bad:
+                self.n['model'] += 1
+                dd = mb2.compare(pre, r, 'check', ())
+                if dd:
+                    chk.violation('drift_variants', 'MODEL-DRIFT: model of `check` with the %s file missing disagrees with the real run: %s' % (levname(a, l), dd[0]), dict(replay, diffs=dd[:6]), no_input=True)
+            for b in bad[:2]:
+                chk.violation('variants', '%s, corruption [%s]: %s' % (self.geomstr(), '; '.join(desc)[:300], b), dict(replay, problems=bad))
+            if len(chk.violations) > 8:
+                return
+        restore(a, self.sv)
+
     def close(self):
         shutil.rmtree(self.arr.root, ignore_errors=True)
+
+
+def observations04(chk, binary):
+    """a behaviour at the edge of the property, measured on every run and recorded in the evidence (proposed key, not a violation until
+    the lead lists it): `check` on an array whose whole parity file of one level is gone prints the open error, says "only files
+    will be checked", and ends with summary:exit:ok / exit status 0 -- the lost level is not reported as an error"""
+    a = Array(binary, nd=2, np_=2)
+    out = {}
+    try:
+        a.write('d1', 'a', bytes([1]) * 2560, mtime_ns=1700000000 * 10**9)
+        a.write('d2', 'b', bytes([4]) * 1024, mtime_ns=1700000000 * 10**9)
+        if a.run('sync').rc == 0:
+            os.unlink(a.parity_files[1][0])
+            r = a.run('check')
+            out['check_with_parity_file_missing'] = {'rc': r.rc, 'exit': r.summary().get('exit'), 'stderr': r.err.strip().splitlines()[:1]}
+            if r.rc == 0:
+                key = 'F-C04-check-ok-with-parity-file-missing'
+                msg = 'with the whole 2-parity file deleted `check` exits 0 with summary:exit:ok (stderr: %s; status: "No accessible 2-Parity file, only files will be checked")' % (r.err.strip().splitlines() or [''])[0][:120]
+                if any(k.get('property') == 'C04' and k.get('key') == key for k in chk.kf):
+                    chk.violation('obs_parity_file_missing', msg, {'recipe': '2 data disks, 2 parities; sync; rm the 2-parity file; check'}, finding_key=key)
+                else:
+                    chk.notes.append('OBSERVATION parity-file-missing (proposed key %s): %s' % (key, msg))
+    finally:
+        shutil.rmtree(a.root, ignore_errors=True)
+    return out
 
 
 def main(tier, replay=None):
@@ -348,6 +488,7 @@ def main(tier, replay=None):
             A.singles(2 if tier == 'quick' else 6)
             A.touched_neighbours(8 if tier == 'quick' else 60)
             A.combos(15 if tier == 'quick' else 120)
+            A.variants(3 if tier == 'quick' else 25)
         A.close()
         return A
     with cf.ThreadPoolExecutor(max_workers=min(8, NCPU)) as ex:
@@ -359,6 +500,10 @@ def main(tier, replay=None):
                     'commands_replayed_by_model': tot['model'], 'traces_validated_against_impl': tot['model'],
                     'trials_set_aside_for_a_hash_collision_of_a_reduced_hash': tot['collisions']})
     chk.cov['samples'] = samples
+    try:
+        chk.cov['observations'] = observations04(chk, binary)
+    except Exception as e:
+        chk.notes.append('observations failed: %s' % e)
     if ob['failed'] and not chk.violations:
         chk.violation('obligation', 'proof obligation of C04 no longer checks: %s' % ob['failed'][0],
                       {'theorem_file': 'coq/Props/Properties_C04.v', 'failed': ob['failed'], 'log_tail': ob['log'][-1500:]}, no_input=True)
